@@ -8,7 +8,7 @@ from cgv.symgraph import TS
 META = {
     "level": "model_checking",
     "engine": "E2 lazy-fork symbolic execution of the real Circuit query methods and props.levelize on a symbolic graph; the value returned on each path is proved equal to a z3 definition (bounded transitive closure, longest-path recurrence, separation) for every pre-state on that path",
-    "hashseeds": {"quick": [0], "thorough": [0, 1]},
+    "hashseeds": {"quick": [0], "thorough": [0]},
     "shards": {"quick": 16, "thorough": 8},
     "exhaustive_within_bound": True,
     "bounds": {
